@@ -81,6 +81,12 @@ def extra_obligations(w, tier, seed):
                     if isinstance(n, ast.Assign) and any(ast.unparse(t).endswith('._htick') for t in n.targets) and ast.unparse(n.value) == 'None':
                         clears.append('%s.%s' % (cname, st.name))
     out.append(ob('scan/tick-handle-cleared-only-by-tick', 'the tick handle is reset to None only by Pool._tick (and the constructor)', sorted(set(clears)) in (['Pool.__init__', 'Pool._tick'], ['Pool._tick']), 'writers of `_htick = None`: %s' % clears))
+    # W5 for the failover path (outside C15's invariant proof): a capacity slot that is dropped from the registries without being closed is never returned, and once the
+    # leaked slots reach max_capacity every later acquire() waits forever -- the two shape obligations of the C15 check on Pool.prune_all_connections are obligations here too
+    try:
+        out += [dict(o) for o in c15.extra_obligations(c15.build(), tier, seed) if o['id'].startswith('scan/prune_all/')]
+    except Exception as e:
+        out.append(ob('scan/prune_all/shared-with-C15', 'the prune_all obligations of the C15 sidecar could be evaluated', False, 'error: %r' % (e,), undecided=True))
     return out
 
 def scenarios(tier, seed, repo_root, outdir):
